@@ -107,6 +107,14 @@ pub fn run(name: &str, a: &Args) -> Option<String> {
             let n = e.leap_seconds_iers();
             // the f64 accessor restricted to the announced entries is the same number
             assert!(e.leap_seconds(true).unwrap_or(0.0) == f64::from(n));
+            // with the SOFA entries allowed as well: they all precede 1972, so from the first announced entry on they change nothing,
+            // and before it they give either nothing (before 1960) or one of their own sub-ten-second values
+            let all = e.leap_seconds(false);
+            if n > 0 {
+                assert!(all == e.leap_seconds(true), "the SOFA entries influence the offset after 1972");
+            } else {
+                assert!(all.map_or(true, |x| x > 0.0 && x < 10.0));
+            }
             format!("{n}")
         }
         "tow_build" => pep(Epoch::from_time_of_week(a.z(0) as u32, a.z(1) as u64, ts(a.z(2)))),
